@@ -188,9 +188,8 @@ def tab (printCol : Nat) (v : Val) : Res Val := do
       else if t.toNat > printCol then t.toNat - printCol else 0
     return .str (List.replicate len ' ')
 
-def isWs (c : Char) : Bool := c.isWhitespace
-/-- `str::trim` (Unicode White_Space; the model uses Lean's ASCII `isWhitespace`, see DESIGN §4) -/
-def trim (s : Str) : Str := ((s.dropWhile isWs).reverse.dropWhile isWs).reverse
+/-- `str::trim` (Unicode White_Space) -/
+def trim (s : Str) : Str := RStd.trim s
 
 /-- `Function::val`: longest prefix of the trimmed string that `Val::from` accepts as a number -/
 def val (v : Val) : Res Val :=
